@@ -8,10 +8,11 @@ from vlib import *
 
 RULE = ('Poisson stream: h = k/4 (k in 1..40), p = k/4 (1..200), K = k/4 (1..400) or (15%) arbitrary binary64 values, integer demand '
         'mean 1..30, lead time in {1/4, 1/2, 1, 2, 3} or (20%) k/10; r_q_poisson_exact plus r_q_cost_poisson at 3 random integer '
-        'pairs (r possibly negative); exact-tie stream (lambda = 1, K chosen so that c(1) = c(2) exactly in binary64); malformed '
+        'pairs (r possibly negative); 25% small-K regime (K <= 1, h >= 5: optimal Q in 1..3); 35% of the calls repeat the previous call with one parameter changed '
+        '(call sequences in one process; 15 earlier calls are repeated at the end and must return bit-identical results); exact-tie stream (lambda = 1, K chosen so that c(1) = c(2) exactly in binary64); malformed '
         'stream (non-positive costs, negative mean / lead time, Q <= 0, non-integer r or Q, zero lead-time demand). '
         'Normal stream: h, p, K floats, mean 50..2000, cv 0.05..0.4, lead time in {1/12, 1/4, 1/2, 1, 2}: r_q_cost at random (r,Q), '
-        'r_q_optimal_r_for_q, the four approximations (8% of the cases with p << h and large K, where the EIL equations have no solution). non-trivial (Poisson) = the returned window was extended at least once to '
+        'r_q_optimal_r_for_q, the four approximations (8% with p << h and large K, where the EIL equations have no solution; 27% with p/h in [1.2, 3] and K in 20..500, reorder point below mean lead-time demand; 30% siblings of the previous call). non-trivial (Poisson) = the returned window was extended at least once to '
         'each side of S; distinct = distinct parameter tuples.')
 
 BIG = Fraction(10) ** 30
@@ -69,15 +70,31 @@ class NormG:
 
 # ------------------------------------------------------------------------------------------------
 # Poisson stream
-def gen_poisson(rng):
+def gen_poisson(rng, prev=None):
     def q4(lo, hi): return rng.randint(lo, hi) / 4
+    if prev is not None and rng.random() < 0.35:
+        # call SEQUENCES: same parameters as the previous call except one (results must not depend on earlier calls)
+        c = {k: prev[k] for k in ('kind', 'h', 'p', 'K', 'lam', 'L', 'regime')}
+        which = rng.choice(['L', 'L', 'lam', 'lam', 'h', 'p', 'K'])
+        while True:
+            v = {'L': rng.choice([0.25, 0.5, 1, 1.5, 2, 3]), 'lam': rng.randint(1, 30), 'h': q4(1, 40), 'p': q4(1, 200), 'K': q4(1, 400)}[which]
+            if v != c[which]: break
+        c[which] = v; c['sibling'] = which
+        c['prelude'] = (prev.get('prelude', []) + [{k: prev[k] for k in ('kind', 'h', 'p', 'K', 'lam', 'L')}])[-3:]
+        return c
     arb = rng.random() < 0.15
     h = rng.uniform(0.1, 10) if arb else q4(1, 40)
     p = rng.uniform(0.5, 50) if arb else q4(1, 200)
     K = rng.uniform(0.5, 100) if arb else q4(1, 400)
     lam = rng.randint(1, 30)
     L = rng.randint(1, 40) / 10 if rng.random() < 0.2 else rng.choice([0.25, 0.5, 1, 2, 3])
-    return dict(kind='poisson', h=h, p=p, K=K, lam=lam, L=L)
+    regime = 'std'
+    if rng.random() < 0.25:
+        # tiny fixed cost / steep newsvendor cost: the optimal Q is 1, 2 or 3 (the loop stops in its first passes)
+        regime = 'smallK'
+        K = rng.choice([rng.uniform(0.005, 0.5), rng.randint(1, 16) / 16]); h = q4(20, 120); p = q4(40, 800)
+        lam = rng.choice([1, 1.5, 2, 3, rng.randint(1, 8)])
+    return dict(kind='poisson', h=h, p=p, K=K, lam=lam, L=L, regime=regime)
 
 
 def gen_tie(rng):
@@ -183,14 +200,17 @@ KIND = {1: 'ValueError', 2: 'ZeroDivisionError', 3: 'FUEL'}
 
 def explore_poisson(chk, n, ntie, do_model=True):
     rng = chk.rng
-    cases = [gen_poisson(rng) for _ in range(n)]
+    cases = []
+    for _ in range(n):
+        cases.append(gen_poisson(rng, cases[-1] if cases else None))
     for _ in range(ntie):
         t = gen_tie(rng)
         if t: cases.append(t)
-    exprs = []; ctx = []
+    exprs = []; ctx = []; impl_first = {}
     for c in cases:
         mu = c['lam'] * c['L']
         res = impl_poisson(c)
+        impl_first[id(c)] = res
         chk.count('kind=%s' % c['kind']); chk.count('mu<=5' if mu <= 5 else 'mu<=30' if mu <= 30 else 'mu>30')
         if res[0] != 'ok':
             chk.fail('r_q_poisson_exact|raises-%s' % res[1], 'valid input raises %s: %s' % (res[1], res[2]), c)
@@ -225,10 +245,18 @@ def explore_poisson(chk, n, ntie, do_model=True):
         nontriv = (r < S - 1) and (r + Q > S)
         key = json.dumps([c['h'], c['p'], c['K'], c['lam'], c['L']])
         chk.case({k: v for k, v in c.items() if not k.startswith('_')}, nontriv, key)
-        chk.count('Q<=5' if Q <= 5 else 'Q<=20' if Q <= 20 else 'Q<=60' if Q <= 60 else 'Q>60')
+        chk.count('regime=%s' % c.get('regime', '-')); chk.count('sibling=%s' % c.get('sibling', '-'))
+        chk.count('Q=1' if Q == 1 else 'Q<=5' if Q <= 5 else 'Q<=20' if Q <= 20 else 'Q<=60' if Q <= 60 else 'Q>60')
         if do_model:
             exprs.append(coq_case_expr(c, ylo, gt, cdf, pairs, Q + S + 60))
             ctx.append((c, res, pairs, vals, ylo, gt))
+    # results must not depend on the call history: repeat some earlier calls at the end and compare bit for bit
+    done = [(c, impl_first[id(c)]) for c in cases if id(c) in impl_first]
+    for c, first in rng.sample(done, min(len(done), 15)):
+        again = impl_poisson(c)
+        if again != first:
+            chk.fail('r_q_poisson_exact|result-depends-on-call-history', 'first call returned %r, the same call later returns %r' % (first, again),
+                     dict({k: v for k, v in c.items() if not k.startswith('_')}, prelude=[{k: v for k, v in d.items() if k in ('kind', 'h', 'p', 'K', 'lam', 'L')} for d, _ in done][-20:]))
     if not (do_model and exprs): return
     out = coq_eval_sharded('c14', 'Alg.RQ', DEFS, exprs, shard=12, jobs=8)
     for (c, res, pairs, vals, ylo, gt), m in zip(ctx, out):
@@ -327,10 +355,21 @@ def explore_malformed(chk, n):
 
 # ------------------------------------------------------------------------------------------------
 # normal stream (oracle only; quad / ppf / loss functions are inputs of the model)
-def gen_normal(rng):
+def gen_normal(rng, prev=None):
+    if prev is not None and rng.random() < 0.3:
+        c = {k: prev[k] for k in ('kind', 'h', 'p', 'K', 'lam', 'sd', 'L')}
+        which = rng.choice(['L', 'lam', 'sd', 'K', 'p'])
+        c[which] = {'L': rng.choice([1 / 12, 0.25, 0.5, 1, 2, 3]), 'lam': rng.randint(50, 2000), 'sd': round(c['lam'] * rng.uniform(0.05, 0.4), 2),
+                    'K': round(rng.uniform(1, 500), 2), 'p': round(c['h'] * rng.uniform(1.2, 60), 3)}[which]
+        c['sibling'] = which
+        c['prelude'] = (prev.get('prelude', []) + [{k: prev[k] for k in ('kind', 'h', 'p', 'K', 'lam', 'sd', 'L')}])[-3:]
+        return c
     h = round(rng.uniform(0.05, 5), 3); p = round(h * rng.uniform(2, 60), 3); K = round(rng.uniform(1, 200), 2)
-    if rng.random() < 0.08:      # EIL equations have no solution when Q h / (p lambda) >= 1: cheap stockouts, expensive orders
+    u = rng.random()
+    if u < 0.08:      # EIL equations have no solution when Q h / (p lambda) >= 1: cheap stockouts, expensive orders
         p = round(h * rng.uniform(0.02, 0.3), 4); K = round(rng.uniform(200, 5000), 2)
+    elif u < 0.35:    # p close to h and sizeable K: reorder point below the mean lead-time demand (negative safety stock)
+        p = round(h * rng.uniform(1.2, 3), 3); K = round(rng.uniform(20, 500), 2)
     lam = rng.randint(50, 2000); sd = round(lam * rng.uniform(0.05, 0.4), 2); L = rng.choice([1 / 12, 0.25, 0.5, 1, 2])
     return dict(kind='normal', h=h, p=p, K=K, lam=lam, sd=sd, L=L)
 
@@ -407,6 +446,7 @@ def oracle_normal(chk, c):
             if EIL_NAN_IS_FAILURE: chk.fail('r_q_eil_approximation|nan', 'returns nan', cc)
         else:
             n = og.n(r)
+            chk.count('eil_r<mu' if r < mu else 'eil_r>=mu')
             if not close(h * Q * Q, 2 * lam * (K + p * n)):
                 chk.fail('r_q_eil_approximation|Q-equation', 'h Q^2=%.12g vs 2 lam (K + p n(r))=%.12g' % (h * Q * Q, 2 * lam * (K + p * n)), cc)
             if abs(og.cdf(r) - (1 - Q * h / (p * lam))) > (h / (p * lam)) * tol * 1.01 + 1e-9:
@@ -440,9 +480,10 @@ def oracle_normal(chk, c):
 
 
 def explore_normal(chk, n):
+    prev = None
     for _ in range(n):
-        c = gen_normal(chk.rng)
-        chk.count('kind=normal')
+        c = gen_normal(chk.rng, prev); prev = c
+        chk.count('kind=normal'); chk.count('normal_sibling=%s' % c.get('sibling', '-'))
         oracle_normal(chk, c)
         chk.case(c, False)
 
@@ -463,7 +504,7 @@ def run(chk):
                    'library functions (poisson pmf/cdf, norm ppf/cdf/pdf, sqrt, fsolve, quad) are inputs/Section variables of the model with the '
                    'stated hypotheses (sqrt x * sqrt x = x, residual bound of the root finder, mean-value bounds of the integral)']
     chk.proof()
-    if chk.tier == 'quick': n, ntie, nmal, nnorm = 110, 8, 30, 60
+    if chk.tier == 'quick': n, ntie, nmal, nnorm = 120, 8, 30, 80
     else: n, ntie, nmal, nnorm = 1500, 60, 200, 1200
     explore_poisson(chk, n, ntie)
     explore_malformed(chk, nmal)
@@ -477,6 +518,7 @@ def replay(chk, rp):
     c = rp['case']
     kind = c.get('kind')
     if kind in ('poisson', 'tie'):
+        for pc in c.get('prelude', []): impl_poisson(pc)      # call history
         res = impl_poisson(c); print('implementation:', res)
         mu = c['lam'] * c['L']
         if res[0] != 'ok':
@@ -489,6 +531,7 @@ def replay(chk, rp):
             if 'r' in c and 'Q' in c: check_cost_call(chk, c, int(c['r']), int(c['Q']), og)
             else: check_cost_call(chk, c, res[1], res[2], og)
     elif kind == 'normal':
+        for pc in c.get('prelude', []): oracle_normal(chk, pc)
         oracle_normal(chk, c)
     elif kind == 'malformed_r_q_cost':
         from stockpyl import rq
